@@ -387,10 +387,21 @@ def g_dihedral(free_a0):
             tgt = sym_angle("tgt")
             s.rotate_dihedral((0, 1, 2, 3), tgt)
             after = s.coords
-            new = s.dihedral(0, 1, 2, 3)
-            X, Y = new.rawx, new.rawy
+            # the dihedral of the new coordinates by its definition, computed here (not by the function under analysis): the angle whose
+            # (sine, cosine) is a positive multiple of (|u2| u1.(u2 x u3), (u1 x u2).(u2 x u3))
+            def raw_dihedral(cc):
+                u1, u2, u3 = cc[1] - cc[0], cc[2] - cc[1], cc[3] - cc[2]
+                return np.linalg.norm(u2) * (u1 @ np.cross(u2, u3)), np.cross(u1, u2) @ np.cross(u2, u3)
+            Y, X = raw_dihedral(after)
             goals = [("dihedral: sin(new) cos(target) = cos(new) sin(target)", E(Y * tgt.c - X * tgt.s) != 0),
                      ("dihedral: new angle on the target's half-line", E(X * tgt.c + Y * tgt.s) <= 0)]
+            # and dihedral() itself reports that angle, before and after the move (also for flat arrangements, where the sine is exactly 0)
+            for nm, cc in (("before", before), ("after", after)):
+                s2 = SymStructure([Atom("C") for _ in range(5)], coords=np.array(cc, dtype=object))
+                rep_ = sr.as_angle(s2.dihedral(0, 1, 2, 3))
+                y_, x_ = raw_dihedral(cc)
+                goals += [(f"dihedral() of the coordinates {nm} the move: sine and cosine proportional to the definition", E(y_ * rep_.c - x_ * rep_.s) != 0),
+                          (f"dihedral() of the coordinates {nm} the move: on the definition's half-line", E(x_ * rep_.c + y_ * rep_.s) <= 0)]
             goals += [(f"dihedral: fixed side atom {i} unchanged[{k}]", E(after[i][k]) != E(before[i][k])) for i in (0, 1, 2) for k in range(3)]
             goals += [(f"dihedral: moved side rigid d{i}{j}", E(d2(after, i, j)) != E(d2(before, i, j))) for i, j in ((2, 3), (3, 4), (2, 4), (1, 3))]
             goals += [("dihedral: handedness of (1,2,3,4) kept", E(vol(after, 1, 2, 3, 4)) != E(vol(before, 1, 2, 3, 4)))]
@@ -407,14 +418,20 @@ def replay_dihedral(goal, model, path):
     for a, b in [(0, 1), (1, 2), (2, 3), (3, 4)]:
         s.connect(a, b)
     tgt = math.atan2(g("tgt_s"), sr.fval(model, "tgt_c", 1.0))
+    def true_dihedral(cc):
+        u1, u2, u3 = cc[1] - cc[0], cc[2] - cc[1], cc[3] - cc[2]
+        return math.atan2(np.linalg.norm(u2) * (u1 @ np.cross(u2, u3)), np.cross(u1, u2) @ np.cross(u2, u3))
     before = float(s.dihedral(0, 1, 2, 3))
+    rep_before = abs(math.atan2(math.sin(before - true_dihedral(C)), math.cos(before - true_dihedral(C)))) < 1e-6
     s.rotate_dihedral((0, 1, 2, 3), tgt)
-    after = float(s.dihedral(0, 1, 2, 3))
+    after = true_dihedral(s.coords)
+    rep_after = abs(math.atan2(math.sin(float(s.dihedral(0, 1, 2, 3)) - after), math.cos(float(s.dihedral(0, 1, 2, 3)) - after))) < 1e-6
     diff = math.atan2(math.sin(after - tgt), math.cos(after - tgt))
     fixed = np.allclose(s.coords[:3], C[:3], atol=1e-8)
     rigid = abs(np.linalg.norm(s.coords[3] - s.coords[4]) - np.linalg.norm(C[3] - C[4])) < 1e-6
-    ok = abs(diff) < 1e-6 and fixed and rigid
-    return bool(ok), f"dihedral before {before:.6f}, target {tgt:.6f}, after rotate_dihedral {after:.6f} (difference {diff:.2e}); fixed side unchanged: {fixed}; moved side rigid: {rigid}; coords {C.tolist()}"
+    ok = abs(diff) < 1e-6 and fixed and rigid and rep_before and rep_after
+    return bool(ok), (f"dihedral() before {before:.6f} (agrees with the definition: {rep_before}), target {tgt:.6f}, dihedral by definition after rotate_dihedral {after:.6f} (difference {diff:.2e}; "
+                      f"dihedral() agrees: {rep_after}); fixed side unchanged: {fixed}; moved side rigid: {rigid}; coords {C.tolist()}")
 
 
 ENCODED = ["molli.math.rotation.rotation_matrix_from_axis", "molli.math.rotation.rotation_matrix_from_vectors", "molli.chem.geometry.CartesianGeometry.translate",
@@ -442,12 +459,17 @@ def run(rep, tier):
     jobs += [(f"rigid-{k}", g_rigid(k), None, 2) for k in ("translate", "transform", "substructure", "substructure-rotate")]
     jobs += [(f"ens-{k}", g_ensemble(k), None, 2) for k in ("translate-1d", "translate-2d", "rotate", "center_at_atom", "center_at_core")]
     jobs += [(f"sub-history-{k}-{e}", g_sub_history(k, e), replay_sub_history(k, e), 2) for k in ("fresh", "del-below", "del-above", "del-between", "two-dels") for e in (("translate",) if q else ("translate", "rotate"))]
-    jobs += [("dihedral", g_dihedral(False), replay_dihedral, 4)]
+    jobs += [("dihedral", g_dihedral(False), replay_dihedral, 128)]
     if not q:
-        jobs += [("dihedral-free", g_dihedral(True), replay_dihedral, 4), ("so3-product", g_so3_product, None, 2)]
+        jobs += [("dihedral-free", g_dihedral(True), replay_dihedral, 128), ("so3-product", g_so3_product, None, 2)]
     allpaths = []
     for label, fn, rp, mp_ in jobs:
-        paths = sr.explore(fn, max_paths=mp_)
+        try:
+            paths = sr.explore(fn, max_paths=mp_)
+        except sr.PathBound as e:
+            from engine.common import Obligation
+            rep.add(Obligation(name=f"{label}/explore", engine="SR", status="inconclusive", detail=str(e)))
+            continue
         allpaths.append((label, paths, rp))
         rep.samples.append({"function": label, "feasible_paths": [p["decisions"] for p in paths], "goals_per_path": [len(p["goals"]) for p in paths]})
     for label, paths, rp in allpaths:
